@@ -216,7 +216,7 @@ PLANS = {
                 "library's own check() asserts are live; non-trivial = >= 1 history step applied; distinct = grid shape, obstruction, "
                 "margin, cost model, transport, history length, levels visited",
         "assumptions": ["free-segment oracle of harness/circ.hpp", "the area of a single cell stays below 2^30 (cell demands are 32-bit integers in the density legalizer)"],
-        "runs": [R("h_density", "asan", "c16.history", 2500, 30000), R("h_density", "fast", "c16.history", 0, 120000)],
+        "runs": [R("h_density", "asan", "c16.history", 10000, 30000), R("h_density", "fast", "c16.history", 0, 120000)],
     },
     "C17": {
         "level": "exploration",
